@@ -28,10 +28,10 @@ PROP = {
          "GtLtPlugin raised", "unparseable text on a DATETIME", "an empty quoted sequence", "an invalid regular expression",
          "exclusive bounds were ignored", "on a field the index lacks", "invalid text on a decimal_places NUMERIC",
          "the date parser plugin let", "a query on a STORED or COLUMN field"],
- "C13": ["numeric ranges at the bottom", "empty numeric intervals", "decimal_places=N", "NUMERIC(float, signed=False)"],
+ "C13": ["a DATETIME range bound typed down to the microsecond", "numeric ranges at the bottom", "empty numeric intervals", "decimal_places=N", "NUMERIC(float, signed=False)"],
  "C08": ["multi-segment column reader", "VarBytesColumn lost", "several column types had no default", "iterating a CompressedBytesColumn", "NUMERIC(default=x, sortable=True)", "sortable DATETIME field failed"],
  "C19": ["contains U+10FFFF", "terms_within", "prefix longer than the word"],
- "C17": ["MultiFilter crashed", "BiWordFilter failed", "IntraWordFilter(", "IntraWordFilter missed", "CharsetTokenizer", "highlighter marked stop words", "highlighting without recorded terms", "NgramTokenizer produced"], "C04": ["RamStorage index blocked forever"], "C18": ["raised ValueError for a field no buffered document has", "EmptyReader had no column_reader", "buffered by a BufferedWriter lost their column", "multi-process commit failed when a sub-writer", "BufferedWriter.commit() raced", "terms_from raised TermNotFound for a schema field"], "C02": [], "C03": ["kept reading through the old schema", "opened on an empty index raised TypeError", "refresh() resurrected segments", "refresh() kept showing documents deleted", "RamStorage index could fail during a concurrent commit", "kept the old generation number"], "C06": ["in-memory column files did not cover", "doc_field_length() returned None", "min_field_length()/max_field_length() raised", "split a document group across segments"], "C07": ["ColumnQuery", "update_document() deleted only the first", "undeleting a document raised", "cancel() did not undo add_field"],
+ "C17": ["MultiFilter crashed", "BiWordFilter failed", "BiWordFilter paired stop words", "IntraWordFilter(", "IntraWordFilter missed", "CharsetTokenizer", "highlighter marked stop words", "highlighting without recorded terms", "NgramTokenizer produced"], "C04": ["RamStorage index blocked forever"], "C18": ["raised ValueError for a field no buffered document has", "EmptyReader had no column_reader", "buffered by a BufferedWriter lost their column", "multi-process commit failed when a sub-writer", "BufferedWriter.commit() raced", "terms_from raised TermNotFound for a schema field"], "C02": [], "C03": ["kept reading through the old schema", "opened on an empty index raised TypeError", "refresh() resurrected segments", "refresh() kept showing documents deleted", "RamStorage index could fail during a concurrent commit", "kept the old generation number"], "C06": ["in-memory column files did not cover", "doc_field_length() returned None", "min_field_length()/max_field_length() raised", "split a document group across segments"], "C07": ["ColumnQuery", "update_document() deleted only the first", "undeleting a document raised", "cancel() did not undo add_field"],
 }
 log = subprocess.run(["git", "-C", "/repo", "log", "--reverse", "--format=%h\t%s"], capture_output=True, text=True).stdout
 fixed = []
